@@ -742,3 +742,32 @@ example : defaultValue (some (.expr ['(', '1', ')'])) = some ['1'] := by decide
 example : defaultValue (some (.expr ['\'', 'a', '\''])) = defaultValue (some (.str ['a'])) := by decide
 
 end C07
+
+/-! ### type family changes on every dialect (synonym groups as a parameter) -/
+namespace C07
+open Model.Diff Spec.Diff
+
+/-- **generalised `type_family_detected`**: for *any* list of synonym groups (any dialect) and any
+`type_arg_extract` results, two types whose first tokens differ and that no single group joins
+(neither by first token nor by full term string) are reported as different - whatever their
+further tokens and arguments.  A comparison that merges the groups into one set violates this. -/
+theorem type_family_detected_groups (syn : List (List String)) (ext : List (Option String × Option String))
+    (i m : G.Params) (h : mustDiffer syn i m = true) : G.compareType syn ext i m = true := by
+  simp only [mustDiffer, Bool.and_eq_true, bne_iff_ne, ne_eq, List.all_eq_true, Bool.not_eq_true'] at h
+  obtain ⟨⟨h0, h1⟩, h2⟩ := h
+  have hm : G.typesMatch syn i m = false := by
+    simp only [G.typesMatch, Bool.or_eq_false_iff, List.any_eq_false]
+    refine ⟨by simpa using h0, ?_⟩
+    intro b hb
+    have e1 := h1 b hb
+    have e2 := h2 b hb
+    simp [e1, e2]
+  simp [G.compareType, hm]
+
+/-- non-vacuity: on Oracle's groups VARCHAR2 / INTEGER must differ, INTEGER / NUMBER need not -/
+example : mustDiffer [["NUMERIC", "DECIMAL"], ["VARCHAR", "VARCHAR2"], ["BIGINT", "INTEGER", "SMALLINT", "DECIMAL", "NUMERIC", "NUMBER"]]
+    ⟨"varchar2", [], ["30"], []⟩ ⟨"integer", [], [], []⟩ = true := by decide
+example : mustDiffer [["NUMERIC", "DECIMAL"], ["VARCHAR", "VARCHAR2"], ["BIGINT", "INTEGER", "SMALLINT", "DECIMAL", "NUMERIC", "NUMBER"]]
+    ⟨"number", [], [], []⟩ ⟨"integer", [], [], []⟩ = false := by decide
+
+end C07
